@@ -3,10 +3,12 @@
 //	instr <repo> <outdir> <relpath>[:point-regexp] ...
 //
 // For every listed file it writes a rewritten copy to <outdir>/<relpath>:
-//   - the imports "sync" and "sync/atomic" are redirected to the shim packages (same local names),
+//   - the imports "sync", "sync/atomic" and "math/rand/v2" are redirected to the shim packages (same local names),
 //     so every sync.Mutex, sync.Once, sync.Pool, atomic.Int32 ... in that file becomes a shim type;
 //   - `go f(x)` becomes `sync.Go(func() func() { a := x; return func() { f(a) } }())`: arguments are
 //     still evaluated by the spawning goroutine, the new goroutine is a scheduler thread;
+//   - optional textual substitutions route `for k := range m` over shared maps through sync.RangeOrder, which
+//     lets the harness own (and explore) the iteration order Go leaves unspecified;
 //   - a call to vsyncrt.Point(label) is inserted before every statement whose source text matches
 //     the optional regular expression (for shared objects of third-party packages).
 //
@@ -31,6 +33,7 @@ import (
 const (
 	shimSync   = "github.com/saucelabs/forwarder/internal/zzverif/vsync"
 	shimAtomic = "github.com/saucelabs/forwarder/internal/zzverif/vsync/vatomic"
+	shimRand   = "github.com/saucelabs/forwarder/internal/zzverif/vsync/vrand"
 )
 
 func main() {
@@ -40,15 +43,22 @@ func main() {
 	}
 	repo, out := os.Args[1], os.Args[2]
 	for _, spec := range os.Args[3:] {
-		rel, re, _ := strings.Cut(spec, "::")
-		if err := rewrite(filepath.Join(repo, rel), filepath.Join(out, rel), re); err != nil {
+		parts := strings.SplitN(spec, "::", 3)
+		rel, re, subs := parts[0], "", ""
+		if len(parts) > 1 {
+			re = parts[1]
+		}
+		if len(parts) > 2 {
+			subs = parts[2]
+		}
+		if err := rewrite(filepath.Join(repo, rel), filepath.Join(out, rel), re, subs); err != nil {
 			fmt.Fprintf(os.Stderr, "instr: %s: %v\n", rel, err)
 			os.Exit(1)
 		}
 	}
 }
 
-func rewrite(src, dst, pointRe string) error {
+func rewrite(src, dst, pointRe, subs string) error {
 	fset := token.NewFileSet()
 	b, err := os.ReadFile(src)
 	if err != nil {
@@ -56,6 +66,13 @@ func rewrite(src, dst, pointRe string) error {
 			return nil
 		}
 		return err
+	}
+	// textual substitutions "old=>new;;old2=>new2" (used to route `range <map>` through vsync.RangeOrder);
+	// a substitution whose left side is absent is skipped: the rewrite must never break a modified tree
+	for _, sub := range strings.Split(subs, ";;") {
+		if o, n, ok := strings.Cut(sub, "=>"); ok && bytes.Contains(b, []byte(o)) {
+			b = bytes.ReplaceAll(b, []byte(o), []byte(n))
+		}
 	}
 	f, err := parser.ParseFile(fset, src, b, parser.ParseComments)
 	if err != nil {
@@ -75,6 +92,12 @@ func rewrite(src, dst, pointRe string) error {
 			im.Path.Value = strconv.Quote(shimAtomic)
 			if im.Name == nil {
 				im.Name = ast.NewIdent("atomic")
+			}
+		case "math/rand/v2":
+			// jitter must be owned by the harness (deterministic schedules)
+			im.Path.Value = strconv.Quote(shimRand)
+			if im.Name == nil {
+				im.Name = ast.NewIdent("rand")
 			}
 		}
 	}
